@@ -475,10 +475,12 @@ func (css *Consensus) batchWorker() {
 			}
 			if err != nil {
 				logger.Errorf("error batching: %s (%s, isPin: %s)", err, batchItem.pin.Cid, batchItem.isPin)
+				verifHook("batcherr", "peer", css.host.ID(), "pin", batchItem.isPin, "cid", batchItem.pin.Cid, "cur", batchCurSize)
 				continue
 			}
 
 			batchCurSize++
+			verifHook("batched", "peer", css.host.ID(), "pin", batchItem.isPin, "cid", batchItem.pin.Cid, "cur", batchCurSize)
 
 			if batchCurSize < maxSize {
 				continue
@@ -486,9 +488,11 @@ func (css *Consensus) batchWorker() {
 
 			if err := css.batchingState.Commit(css.ctx); err != nil {
 				logger.Errorf("error commiting batch after reaching max size: %s", err)
+				verifHook("commit", "peer", css.host.ID(), "reason", "size", "cur", batchCurSize, "ok", false)
 				continue
 			}
 			logger.Debugf("batch commit (size): %d items", maxSize)
+			verifHook("commit", "peer", css.host.ID(), "reason", "size", "cur", batchCurSize, "ok", true)
 
 			// Stop timer and commit. Leave ready to reset on next
 			// item.
@@ -501,9 +505,11 @@ func (css *Consensus) batchWorker() {
 			// Commit
 			if err := css.batchingState.Commit(css.ctx); err != nil {
 				logger.Errorf("error commiting batch after reaching max age: %s", err)
+				verifHook("commit", "peer", css.host.ID(), "reason", "age", "cur", batchCurSize, "ok", false)
 				continue
 			}
 			logger.Debugf("batch commit (max age): %d items", batchCurSize)
+			verifHook("commit", "peer", css.host.ID(), "reason", "age", "cur", batchCurSize, "ok", true)
 			// timer is expired at this point, it will have to be
 			// reset.
 			batchCurSize = 0
